@@ -1,26 +1,14 @@
-(* C05 — lemmas, part H: the persisted running-filter snapshot is consumed by the first use of the filter
-   after a restart (code after the repair of the stale-snapshot findings). Hence the semantic hypothesis
-   ops_fresh of the index theorem follows from the purely syntactic snapshot discipline of juno's node
-   (snap_discipline: no block is reverted between a snapshot and the next restart). *)
+(* C05 — lemmas, part H: the two invalidations of the persisted running-filter snapshot.
+   (1) it is consumed by the first use of the filter after a restart (/repo 1231538);
+   (2) it is deleted by every committed RevertHead, inside the revert's batch
+       (findings/C05-snapshot-invalidated-by-revert.patch).
+   With (2) the index theorem (Proofs_G.crash_index_covers) needs NO hypothesis about snapshots any more: the
+   former ops_fresh / snap_discipline hypotheses are gone (revert_idx no longer uses them). What is left is
+   the start hypothesis mem_sync; it is what a FAILED store breaks (witness wit_st below). *)
 From Coq Require Import List NArith Bool Lia ZifyN ZifyNat ZifyBool PeanoNat.
 From V Require Import C05.Model C05.Proofs_A C05.Proofs_B C05.Proofs_C C05.Proofs_E C05.Proofs_F C05.Proofs_D C05.Proofs_G.
 Import ListNotations.
 Open Scope N_scope.
-
-(* a persisted snapshot that describes no block *)
-Definition snap_harmless (d : disk) : Prop := forall s, d_snap d = Some s -> rf_next s = 0.
-
-(* [pending] over-approximates "a snapshot written by the running process may be on disk" *)
-Definition SnapInv (pending : bool) (d : disk) : Prop :=
-  pending = false \/ d_height d = None -> snap_harmless d.
-
-Definition next_pending (o : op) (p : bool) : bool :=
-  match o with Snapshot => true | Restart _ => false | _ => p end.
-
-Lemma snap_discipline_cons : forall o r p,
-  snap_discipline (o :: r) p =
-  (match o with Revert => negb p | _ => true end) && snap_discipline r (next_pending o p).
-Proof. intros. destruct o; reflexivity. Qed.
 
 (* ---------- the snapshot field through the writes of an initialisation ---------- *)
 Lemma init_wrs_snap_none : forall W h ws d, Forall (init_wr W h) ws -> d_snap d = None ->
@@ -54,109 +42,45 @@ Proof.
   apply (reinit_consumes W d1 h HW Hc1 Hh1).
 Qed.
 
-(* ---------- one operation ---------- *)
-Lemma step_snap_inv : forall W st o p, 0 < W -> Good W st -> op_env (fst st) o = true ->
-  SnapInv p (fst st) -> (o = Revert -> p = false) ->
-  SnapInv (next_pending o p) (fst (step W st o)).
+(* ---------- a committed revert deletes the snapshot ---------- *)
+Lemma revert_invalidates : forall W d m, 0 < W -> mem_sync W d m = true ->
+  fst (plan W Revert d m) <> [] -> d_snap (fst (step W (d, m) Revert)) = None.
 Proof.
-  intros W [d m] o p HW (Hc & Hk & Hs) Henv Hinv Hrev. cbn [fst snd] in *.
-  pose proof (sync_aligned W d m HW Hs) as Ha.
-  (* operations that keep the snapshot, and either keep the height or leave a height *)
-  assert (Hkeep : forall d', d_snap d' = d_snap d -> (d_height d' = None -> p = false \/ d_height d = None) ->
-                  SnapInv p d').
-  { intros d' E1 E2 Hp s Hsn. rewrite E1 in Hsn. apply (Hinv ltac:(destruct Hp; auto) s Hsn). }
-  unfold step. destruct o; cbn [plan fst snd next_pending].
-  - (* Store *)
-    destruct (succession_ok d b) eqn:Hsu; [|cbn [fst snd apply_batches fold_left]; apply Hkeep; auto].
-    destruct (rf_insert W m (b_num b) (b_bloom b)) as [[ws m']|] eqn:Hi;
-      [|cbn [fst snd apply_batches fold_left]; apply Hkeep; auto].
-    cbn [fst snd apply_batches fold_left].
-    destruct (rf_insert_shape W m _ _ _ _ HW Ha Hi) as [_ Hws].
-    assert (Hwo : Forall window_only ws). { destruct Hws as [->|[c [-> _]]]; repeat constructor. }
-    destruct (store_fields d b ws Hwo) as (A & _ & _ & D & _).
-    apply Hkeep; auto. intros X. rewrite A in X. discriminate.
-  - (* Revert: only without a pending snapshot *)
-    specialize (Hrev eq_refl). subst p.
-    assert (Hh' : forall d', d_snap d' = d_snap d -> SnapInv false d').
-    { intros d' E. apply Hkeep; auto. }
-    destruct (d_height d) as [h|] eqn:Hh; [|cbn [fst snd apply_batches fold_left]; apply Hh'; auto].
-    destruct (find_num h (d_fam d FSU)); [|cbn [fst snd apply_batches fold_left]; apply Hh'; auto].
-    destruct (header d h) as [hb|] eqn:Hd; [|cbn [fst snd apply_batches fold_left]; apply Hh'; auto].
-    destruct (rf_reorg_shape W d m HW Ha) as [_ A2].
-    destruct (rf_reorg W d m) as [[ws|] m'] eqn:Hr; cbn [fst snd apply_batches fold_left] in *; [|apply Hh'; auto].
-    assert (Hwo : Forall window_only ws). { destruct (A2 ws eq_refl) as [->|[a ->]]; repeat constructor. }
-    destruct (revert_fields d hb ws Hwo) as (_ & _ & _ & D & _). apply Hh'; auto.
-  - (* Prune *)
-    unfold op_env in Henv. destruct (d_height d) as [h|] eqn:Hh.
-    + apply N.leb_le in Henv.
-      pose proof (proj1 (consistent_some W d h Hh) Hc) as [_ [hb I]].
-      destruct (prune_batches_InvS W h hb (prune_plan W d keep_hist e) d I (prune_plan_wr W d keep_hist e h Henv))
-        as (_ & A & B).
-      apply Hkeep; auto. intros X. rewrite A, Hh in X. discriminate.
-    + pose proof (proj1 (consistent_none W d Hh) Hc) as (_ & Hf & _ & _).
-      unfold prune_plan, floor. rewrite Hf. apply Hkeep; auto.
-  - (* SetL1 *)
-    apply Hkeep; auto.
-  - (* Snapshot: the running process's snapshot is pending; on an empty chain it describes no block *)
-    destruct (rf_err m) eqn:He; cbn [apply_batches fold_left].
-    + intros [X|X]; [discriminate|]. apply Hinv. right. exact X.
-    + intros [X|X]; [discriminate|]. intros s Hsn. simpl in Hsn. inversion Hsn; subst s.
-      simpl in X. destruct (sync_parts W d m Hs) as (_ & S2 & _). rewrite S2. unfold next_num. rewrite X. reflexivity.
-  - (* Restart: consumed if the chain has a height; on an empty chain only a harmless one can be there *)
-    set (bs0 := if graceful && negb (rf_err m) then [[WSnap m]] else []).
-    set (d1 := apply_batches d bs0).
-    assert (Hd1 : consistent W d1 = true /\ d_height d1 = d_height d /\
-                  (d_height d = None -> snap_harmless d1)).
-    { subst d1 bs0. destruct (graceful && negb (rf_err m)); cbn [apply_batches fold_left].
-      - split; [apply snap_consistent; auto; eapply sync_wf; eauto|]. split; [reflexivity|].
-        intros X s Hsn. simpl in Hsn. inversion Hsn; subst s.
-        destruct (sync_parts W d m Hs) as (_ & S2 & _). rewrite S2. unfold next_num. rewrite X. reflexivity.
-      - split; [exact Hc|]. split; [reflexivity|]. intros X. apply Hinv. right. exact X. }
-    destruct Hd1 as (Hc1 & Hh1 & Hn1).
-    rewrite apply_batches_app. fold d1. intros _.
-    destruct (d_height d1) as [h|] eqn:Hh.
-    + intros s Hsn. rewrite (reinit_consumes W d1 h HW Hc1 Hh) in Hsn. discriminate.
-    + rewrite reinit_w_none by auto. simpl. apply Hn1. congruence.
+  intros W d m HW Hs Hne. pose proof (sync_aligned W d m HW Hs) as Ha.
+  unfold step. cbn [plan fst snd] in *.
+  destruct (d_height d) as [h|] eqn:Hh; [|contradiction Hne; reflexivity].
+  destruct (find_num h (d_fam d FSU)); [|contradiction Hne; reflexivity].
+  destruct (header d h) as [hb|] eqn:Hd; [|contradiction Hne; reflexivity].
+  destruct (rf_reorg_shape W d m HW Ha) as [_ A2].
+  destruct (rf_reorg W d m) as [[ws|] m'] eqn:Hr; cbn [fst snd apply_batches fold_left] in *;
+    [|contradiction Hne; reflexivity].
+  assert (Hwo : Forall window_only ws). { destruct (A2 ws eq_refl) as [->|[a ->]]; repeat constructor. }
+  destruct (revert_fields d hb ws Hwo) as (_ & _ & _ & D & _). exact D.
 Qed.
 
-(* ---------- the run ---------- *)
-Lemma discipline_fresh : forall W ops st p, 0 < W -> Good W st -> SnapInv p (fst st) ->
-  ops_env W ops st = true -> snap_discipline ops p = true -> ops_fresh W ops st = true.
-Proof.
-  induction ops; intros st p HW HG Hinv He Hd; [reflexivity|].
-  rewrite snap_discipline_cons in Hd. apply andb_true_iff in Hd as [D1 D2].
-  cbn [ops_env] in He. apply andb_true_iff in He as [E1 E2].
-  cbn [ops_fresh]. apply andb_true_iff. split.
-  - destruct a; try reflexivity. unfold op_fresh.
-    destruct (d_height (fst st)) as [h|] eqn:Hh; auto. destruct (d_snap (fst st)) as [s|] eqn:Hs; auto.
-    apply negb_true_iff in D1. rewrite (Hinv (or_introl D1) s Hs). apply N.leb_le. lia.
-  - apply (IHops (step W st a) (next_pending a p)); auto.
-    + apply step_good; auto.
-    + apply step_snap_inv; auto. intros ->. apply negb_true_iff in D1. exact D1.
-Qed.
+(* ---------- the start hypothesis mem_sync is needed: the state a failed store leaves ----------
+   Store 0, Store 1, then the commit of Store 2 fails: the disk is the one after two stores, the in-memory
+   filter already holds block 2's column and next = 3. Every start hypothesis of the index theorem holds
+   for this state except mem_sync (Props.C05_index_sync_needed evaluates the rest by vm_compute). *)
+Definition wit_blk n id p bl := {| b_num := n; b_id := id; b_parent := p; b_bloom := bl |}.
+Definition wit_ops : list op :=
+  [Store (wit_blk 0 100 0 [1]); Store (wit_blk 1 101 100 [2]); Store (wit_blk 2 102 101 [1])].
+Definition wit_st : disk * rfilter := exec_fault 4 wit_ops 2 (disk0, rf0).
 
-(* the start state: the index invariant bounds the snapshot by the chain *)
-Lemma snap_inv_start : forall W d, IdxD W d -> SnapInv (snap_pending d) d.
+Lemma wit_st_idx : IdxD 4 (fst wit_st) /\ MemCover (fst wit_st) (snd wit_st).
 Proof.
-  intros W d [_ _ sn] [Hp|Hn] s Hs.
-  - unfold snap_pending in Hp. rewrite Hs in Hp. apply negb_false_iff in Hp. apply N.eqb_eq in Hp. exact Hp.
-  - destruct (sn s Hs) as [L _]. unfold next_num in L. rewrite Hn in L. lia.
-Qed.
-
-(* no event false negatives after a crash, for every history that respects the snapshot discipline *)
-Lemma crash_index_covers_discipline : forall W ops k st, 0 < W -> IdxGood W st ->
-  ops_env W ops st = true -> snap_discipline ops (snap_pending (fst st)) = true ->
-  index_covers W (fst (exec_crash W ops k st)) = true.
-Proof.
-  intros W ops k st HW HI He Hd. apply crash_index_covers; auto.
-  destruct HI as (HG & Hi & _).
-  eapply discipline_fresh; eauto. eapply snap_inv_start; eauto.
-Qed.
-
-Lemma discipline_fresh_empty : forall W ops, 0 < W -> ops_env W ops (disk0, rf0) = true ->
-  snap_discipline ops false = true -> ops_fresh W ops (disk0, rf0) = true.
-Proof.
-  intros W ops HW He Hd. apply (discipline_fresh W ops (disk0, rf0) false); auto.
-  - apply (proj1 (good_init W HW)).
-  - intros _ s Hs. discriminate.
+  assert (Hh : d_fam (fst wit_st) FHeader = [wit_blk 1 101 100 [2]; wit_blk 0 100 0 [1]]) by (vm_compute; reflexivity).
+  assert (Hw : d_windows (fst wit_st) = []) by (vm_compute; reflexivity).
+  assert (Hs : d_snap (fst wit_st) = None) by (vm_compute; reflexivity).
+  assert (Hn : next_num (fst wit_st) = 2) by (vm_compute; reflexivity).
+  assert (Hm : rf_cols (snd wit_st) = [(2, [1]); (1, [2]); (0, [1])]) by (vm_compute; reflexivity).
+  generalize dependent wit_st. intros [d m]. cbn [fst snd]. intros Hh Hw Hs Hn Hm.
+  split.
+  - constructor.
+    + intros a c hb Hg. unfold get_window in Hg. rewrite Hw in Hg. discriminate.
+    + intros hb Hin _ Hlt. exfalso. rewrite Hh in Hin. rewrite Hn in Hlt.
+      destruct Hin as [<-|[<-|[]]]; vm_compute in Hlt; discriminate.
+    + intros s Hs'. rewrite Hs in Hs'. discriminate.
+  - intros hb Hin _ _. rewrite Hh in Hin. rewrite Hm.
+    destruct Hin as [<-|[<-|[]]]; intros k Hk; destruct Hk as [<-|[]]; vm_compute; reflexivity.
 Qed.
